@@ -18,6 +18,7 @@ package badger
 import (
 	"bytes"
 	"fmt"
+	"os"
 	"sort"
 	"strings"
 	"time"
@@ -403,6 +404,30 @@ func c24Run(e *enumCtx, nvk int, seq []string) (string, string) {
 				return "backup-versions", fmt.Sprintf("%s restored versions {%s}, expected {%s}", name, gv, exp)
 			}
 		}
+		// C11 post-condition after a crash right after Load: the loaded entries may exist only in the
+		// WAL (they are written outside a transaction frame); a copy of the directory taken while
+		// the database is open is the crash image
+		if maxVer > 0 && name == "full" {
+			img := root + "/" + name + "-crash"
+			if err := copyDirFlat(root+"/"+name, img); err != nil {
+				return "c24-copy", err.Error()
+			}
+			cdb, err := Open(c24Opts(img, nvk))
+			if err != nil {
+				return "backup-crash-reopen", fmt.Sprintf("%s: Open of the crash image taken right after Load: %v", name, err)
+			}
+			cerr := cdb.Update(func(txn *Txn) error { return txn.Set([]byte("a"), []byte("new")) })
+			cts := cdb.orc.nextTs() - 1
+			var cv string
+			_ = cdb.View(func(txn *Txn) error { cv = getStr(txn, "a"); return nil })
+			_ = cdb.Close()
+			if cerr != nil {
+				return "backup-write-after", cerr.Error()
+			}
+			if cts <= maxVer || cv != "new" {
+				return "backup-stale-ts", fmt.Sprintf("%s: after Load + crash + re-open a new commit got timestamp %d (loaded max version %d) and reads back %q", name, cts, maxVer, cv)
+			}
+		}
 		// C11 post-condition
 		if err := db.Update(func(txn *Txn) error { return txn.Set([]byte("a"), []byte("new")) }); err != nil {
 			return "backup-write-after", err.Error()
@@ -425,4 +450,29 @@ func c24Run(e *enumCtx, nvk int, seq []string) (string, string) {
 	}
 	e.r.AddExtra("backups", int64(len(chain)+1))
 	return "", ""
+}
+
+// copyDirFlat copies the regular files of src into a fresh directory dst (a page-cache crash image
+// when src belongs to an open database).
+func copyDirFlat(src, dst string) error {
+	if err := os.MkdirAll(dst, 0o755); err != nil {
+		return err
+	}
+	ents, err := os.ReadDir(src)
+	if err != nil {
+		return err
+	}
+	for _, e := range ents {
+		if e.IsDir() {
+			continue
+		}
+		b, err := os.ReadFile(src + "/" + e.Name())
+		if err != nil {
+			return err
+		}
+		if err := os.WriteFile(dst+"/"+e.Name(), b, 0o644); err != nil {
+			return err
+		}
+	}
+	return nil
 }
